@@ -61,12 +61,18 @@ def step():
 
 
 def _jsonable(v):
-    if isinstance(v, (bool, int, float, str, type(None))):
+    if nondet.MODE == "symbolic":
+        v = nondet.concretize(v)
+    return _jsonable2(v)
+
+
+def _jsonable2(v):
+    if v is None or v.__class__ in (bool, int, float, str):
         return v
     if isinstance(v, dict):
-        return {str(k): _jsonable(x) for k, x in v.items()}
+        return {str(k): _jsonable2(x) for k, x in v.items()}
     if isinstance(v, (list, tuple, set, frozenset)):
-        return [_jsonable(x) for x in v]
+        return [_jsonable2(x) for x in v]
     return repr(v)
 
 
